@@ -2,8 +2,8 @@ import runpy, os
 REGP_LIB = runpy.run_path(os.path.join(os.path.dirname(os.path.abspath(__file__)), "C08.py"))["REGP_LIB"]
 CHECK = {
     "level": "fault_enumeration",
-    "technique": "exhaustive enumeration of frame lengths, read sizes, allocation-failure scripts, stream mutations and endpoint-error positions through the real regp_recv/regp_process/regp_free under ASan+UBSan with exact-size allocator blocks, an allocation ledger and budgeted scripted endpoints",
-    "rule": "a case is one point (or one small block) of a fault family: frame length x block size x transport variant; read size x block size x request header variant; allocation script; substitution position (x 13 octets x allocation); truncation set; string chunk; error position (x code x allocation x mutation); every case runs at least one receive/process/free round against the real code, all are non-trivial",
+    "technique": "exhaustive enumeration of frame lengths (incl. lazily generated streams straddling 2^15, 2^16, 2^31 and 2^32), read sizes, allocation-failure scripts, stream mutations, endpoint-error positions and sink answer scripts for every reply kind through the real regp_recv/regp_process/regp_free under ASan+UBSan with exact-size allocator blocks, an allocation ledger and budgeted scripted endpoints",
+    "rule": "a case is one point (or one small block) of a fault family: frame length x block size x transport variant; read size x block size x request header variant; allocation script; substitution position (x 13 octets x allocation); truncation set; string chunk; error position (x code x allocation x mutation); reply kind x transport variant x sink kind x first sink answer (x every call position x second answer x caller style x allocator kind); generated frame length x block size x transport variant; every case runs at least one receive/process/free round against the real code, all are non-trivial",
     "assumptions": ["block sizes from the stated set; the quantifier's 'random / coverage-guided streams' are replaced by the exhaustive families i..vi",
                     "for receive blocks that cannot hold a 16-octet header the form of the overflow reply is not demanded (the header needed to echo sequence and address was never stored); memory safety and the ledger are",
                     "a read whose data fits the block behind the request's header but not together with a full 16-octet response header may be executed or answered with a transmit-overflow response; one that does not fit behind the request's header (12, 14 or 16 octets as received) must be refused without access; the buffer size in that response is accepted as block size, block size minus descriptor, or that minus the request header",
@@ -12,12 +12,18 @@ CHECK = {
                     "a frame shorter than a header is reported through error.id == EBADMSG plus the header-encoding meta message; regp_recv may additionally return a negative value",
                     "after regp_recv returned a channel error a caller may still pass the (reused) RPMaybeFrame to regp_process, as the documented service loop does",
                     "the allocator serves requests of any size and up to 8 live blocks; only unbalanced, double or foreign frees count",
-                    "allocation failure is only generated for request frames"],
+                    "allocation failure is only generated for request frames",
+                    "family viii (sink answers EAGAIN / EINTR / short write / zero-length write / hard error while a reply is sent): memory safety, no hang and the ledger are always demanded, with a caller that processes only after a successful receive and with one that always processes, both releasing mf.frame when it is not NULL; of the reply: when no hard error was answered and both regp_recv and regp_process reported success (the sink then took every octet it was offered), a frame the statement says is answered with a receive-overflow, transmit-overflow or busy response has been answered with exactly that; meta messages and all other replies are only inspected in the undisturbed exchange (they may be best effort once the sink hesitates)",
+                    "a zero-length answer is only given to sink writes of several octets (what it means for a single octet is between sink_put_octet and its callers: C17, C08)",
+                    "family ix: lengths >= 2^31 only on the length-prefix transport with a source offering a 64 KiB scratch buffer (octet-wise delivery of 2 GiB is out of budget); 2^24 octet-wise in the thorough tier; the generated frame is a write request whose payload is one repeated octet",
+                    "the ledger allocator is also presented through the slab calling convention (families iii, viii)"],
     "harnesses": [{
         "name": "c09_memsafe", "src": "harness/c09_memsafe.c", "shape": "espace", "opt": "-O1",
         "lib": REGP_LIB, "min_outcomes": 12,
         "require_outcomes": {"any": ["fits-executed", "overflow-answered", "overflow-tiny-block", "read-executed", "tx-overflow", "alloc-mixed", "alloc-all-fail",
                                      "mutation-some-executed", "mutation-none-executed", "truncations", "short-frames", "two-frames", "tcp-prefix", "short-strings", "source-errors", "sink-errors",
-                                     "read-variant-executed", "stale-frame-not-reused"]},
+                                     "read-variant-executed", "stale-frame-not-reused",
+                                     "reply-sink-retry-request", "reply-sink-short-write", "reply-sink-zero-length-write", "reply-sink-hard-error",
+                                     "giant-overflow-answered", "large-frame-served"]},
     }],
 }
